@@ -120,8 +120,11 @@ def record_episode(rng: random.Random, ep: int) -> dict | None:
     order = list(inputs)
     rng.shuffle(order)
     how = rng.choice(PRESENTATIONS)
+    tens = [B.node(t) for t in tensors]
+    if rows >= 4 and rng.random() < 0.5:                # same rows, passed as the list of their scalars
+        tens = [t.reshape(-1)[i] for t in tens for i in range(t.numel())]
     try:
-        backward([B.node(t) for t in tensors], agg, inputs=present([B.node(l) for l in order], how),
+        backward(tens, agg, inputs=present([B.node(l) for l in order], how),
                  retain_graph=rng.random() < 0.5, parallel_chunk_size=None if k == 0 else k)
     except Exception as e:                              # noqa: BLE001
         return {"ep": ep, "prog": prog, "tensors": tensors, "inputs": inputs, "k": k, "w": w,
